@@ -167,7 +167,7 @@ NEEDLE_SETS = {
     2: [[0x61, 0x62], [0x00, 0xFF], [0x80, 0x80], [0xFF, 0x7F]],
     3: [[0x61, 0x62, 0x63], [0x00, 0x80, 0xFF], [0x61, 0x61, 0x61], [0x01, 0xFE, 0x80]],
 }
-BACKENDS_X86 = ["swar", "sse2", "avx2", "top"]
+BACKENDS_X86 = ["swar", "sse2", "avx2", "top", "top:sse2", "top:none"]
 
 def interesting_positions(n, a):
     ps = set([0, 1, 2, n // 2, n - 1, n - 2])
@@ -201,7 +201,9 @@ def gen_memchr(op, tier, rng, backends=BACKENDS_X86):
         aligns = list(range(64))
     arities = [1] if op == "count" else [1, 2, 3]
     k = 0
-    for be in backends:
+    for be0 in backends:
+        be = be0.split(":")[0]
+        cpu = (" cpu=" + be0.split(":")[1]) if ":" in be0 else ""
         for ar in arities:
             sets = NEEDLE_SETS[ar]
             for n in lens:
@@ -218,7 +220,7 @@ def gen_memchr(op, tier, rng, backends=BACKENDS_X86):
                     nshex = hexs(bytes(ns))
                     filler = 0x78
                     # no match
-                    cases.append(f"{op} be={be} ns={nshex} a={a} h={hexs(mk_hay(n, filler, []))}")
+                    cases.append(f"{op} be={be}{cpu} ns={nshex} a={a} h={hexs(mk_hay(n, filler, []))}")
                     for pi, p in enumerate(sorted(set(poss))):
                         b = ns[(pi + k) % len(ns)]
                         marks = [(p, b)]
@@ -228,7 +230,7 @@ def gen_memchr(op, tier, rng, backends=BACKENDS_X86):
                             marks.append((q, ns[(pi + 1) % len(ns)]))
                         if pi % 4 == 1:
                             marks.append((p + (1 if op != "rfind" else -1), ns[0]))
-                        cases.append(f"{op} be={be} ns={nshex} a={a} h={hexs(mk_hay(n, filler, marks))}")
+                        cases.append(f"{op} be={be}{cpu} ns={nshex} a={a} h={hexs(mk_hay(n, filler, marks))}")
                     k += 1
                 # dense patterns (matter for count and for mask->offset conversion)
                 a = aligns[(n * 5 + ar) % len(aligns)]
@@ -236,18 +238,20 @@ def gen_memchr(op, tier, rng, backends=BACKENDS_X86):
                 nshex = hexs(bytes(ns))
                 for dens in ([1, 2, 3, 5] if (quick and n % 4 == 0) or not quick else []):
                     h = bytes((ns[i % len(ns)] if i % dens == 0 else 0x78) for i in range(n))
-                    cases.append(f"{op} be={be} ns={nshex} a={a} h={hexs(h)}")
+                    cases.append(f"{op} be={be}{cpu} ns={nshex} a={a} h={hexs(h)}")
                 if n % 8 == 0 or not quick:
                     # flush against guard pages
                     for fl in (1, 2):
                         aa = 0 if fl == 1 else (4096 - n) % 4096
                         h = mk_hay(n, 0x78, [(n - 1, ns[0])] if n and op != "rfind" else [(0, ns[0])] if n else [])
-                        cases.append(f"{op} be={be} ns={nshex} a={aa} fl={fl} h={hexs(h)}")
-                        cases.append(f"{op} be={be} ns={nshex} a={aa} fl={fl} h={hexs(mk_hay(n, 0x78, []))}")
+                        cases.append(f"{op} be={be}{cpu} ns={nshex} a={aa} fl={fl} h={hexs(h)}")
+                        cases.append(f"{op} be={be}{cpu} ns={nshex} a={aa} fl={fl} h={hexs(mk_hay(n, 0x78, []))}")
     # seeded random, longer haystacks
     nr = 400 if quick else 6000
     for _ in range(nr):
-        be = rng.choice(backends)
+        be0 = rng.choice(backends)
+        be = be0.split(":")[0]
+        cpu = (" cpu=" + be0.split(":")[1]) if ":" in be0 else ""
         ar = 1 if op == "count" else rng.choice([1, 2, 3])
         ns = [rng.choice([0, 0x80, 0xFF, 0x61, 0x62, rng.randrange(256)]) for _ in range(ar)]
         n = rng.choice([rng.randrange(0, 100), rng.randrange(0, 700), rng.randrange(0, 4096 if not quick else 1200)])
@@ -259,7 +263,7 @@ def gen_memchr(op, tier, rng, backends=BACKENDS_X86):
         if dens and n:
             for _ in range(max(1, n // dens)):
                 h[rng.randrange(n)] = rng.choice(ns)
-        cases.append(f"{op} be={be} ns={hexs(bytes(ns))} a={rng.randrange(4096)} h={hexs(bytes(h))}")
+        cases.append(f"{op} be={be}{cpu} ns={hexs(bytes(ns))} a={rng.randrange(4096)} h={hexs(bytes(h))}")
     return cases
 
 def oracle_memchr(op, kv, res, trace, flags):
